@@ -49,7 +49,19 @@ def generate(rng, tier='quick', **kw):
                 'timeout': rng.choice([0.05, 0.5, 2.0]) if late else rng.choice([0.5, 2.0]),
                 'svc': {'delay': rng.choice([0.001, 0.005, 0.02, 0.08, 0.08, 0.15]) if late else rng.choice([0.001, 0.005, 0.02, 0.08]),
                         'error': rng.choice([0, 0, 0, 0, 0, 2, 7, 6])}})
-  return {'world': 'w_kafka', 'brokers': n_brokers, 'topics': topics, 'ops': ops,
+  # topics nobody produces to, with the odd shapes a broker legitimately reports:
+  # no partitions (being created), several replicas, a short in-sync list
+  extra = {}
+  if rng.random() < 0.6:
+    for xi in range(rng.randint(1, 3)):
+      parts = []
+      for pid in range(rng.choice([0, 0, 1, 2, 3])):
+        leader = rng.randrange(n_brokers)
+        reps = sorted(set([leader] + [rng.randrange(n_brokers) for _ in range(rng.randint(0, 2))]))
+        isr = [r for r in reps if r == leader or rng.random() < 0.5]
+        parts.append([rng.choice([0, 0, 9]), pid, leader, reps, isr])
+      extra[rng.choice(['zz', '', 'creating', 'é'.encode().decode('latin-1')]) + str(xi)] = parts
+  return {'world': 'w_kafka', 'brokers': n_brokers, 'topics': topics, 'ops': ops, 'meta_extra': extra,
           'bootstrap': sorted(rng.sample(range(n_brokers), rng.randint(1, n_brokers))),
           'net': {'chunk': rng.choice(['none', 'some', 'bytes']), 'jitter': rng.choice([0.0, 0.0005])},
           'unknown_topic': rng.random() < 0.1}
@@ -82,6 +94,7 @@ def run(scn):
   by_list = {}
   tracker.id_from_args = lambda args, kwargs: by_list.get(id(args[1])) if len(args) > 1 else None
   matched = {}
+  sent_meta, got_meta = [], []
 
   class W(object):
     def on_kafka_request(self, broker, conn, req):
@@ -91,6 +104,9 @@ def run(scn):
         bl = [(i, ('k%d' % i).encode(), 9092 + i) for i in range(scn['brokers'])]
         tl = {name.encode(): [(0, pid, leader, [leader], [leader]) for pid, leader in enumerate(parts)]
               for name, parts in topics.items()}
+        for name, parts in (scn.get('meta_extra') or {}).items():
+          tl[name.encode()] = [tuple(p) for p in parts]
+        sent_meta.append((bl, tl))
         out = encode_metadata(corr, bl, tl)
         conn.server_send(struct.pack('!i', len(out)) + out, 0.001)
         return
@@ -135,7 +151,16 @@ def run(scn):
     brokers.append(b)
 
   from scales.kafka import Kafka
-  from scales.kafka.protocol import ProduceResponse
+  from scales.kafka.protocol import ProduceResponse, KafkaProtocol, MetadataResponse
+  orig_deser = KafkaProtocol.DeserializeMessage
+
+  def deser(self, buf, msg_type):
+    ret = orig_deser(self, buf, msg_type)
+    rv = getattr(ret, 'return_value', None)
+    if isinstance(rv, MetadataResponse):
+      got_meta.append(rv)
+    return ret
+  KafkaProtocol.DeserializeMessage = deser
   uri = 'tcp://' + ','.join('k%d:%d' % (i, 9092 + i) for i in scn['bootstrap'])
   client = Kafka.NewBuilder().SetUri(uri).SetTimeout(5.0).SetOpenTimeout(0).Build()
   disp = client._dispatcher
@@ -191,6 +216,31 @@ def run(scn):
         REC.violation('C15', 'wrong_leader',
                       'Put %s for %s partition %d arrived at broker %d; leaders are %r' % (
                         call.id, name, part['partition'], req['broker'], leaders))
+  # metadata responses decode to exactly what the broker encoded
+  def norm_sent(bl, tl):
+    return (dict((nid, (nid, host, port)) for nid, host, port in bl),
+            dict((name, dict((pid, (name, pid, leader, list(reps), list(isr))) for _, pid, leader, reps, isr in parts))
+                 for name, parts in tl.items()))
+
+  def norm_got(m):
+    return (dict((k, tuple(v)) for k, v in dict(m.brokers).items()),
+            dict((name, dict((pid, (pm.topic_name, pm.partition_id, pm.leader, list(pm.replicas), list(pm.isr)))
+                             for pid, pm in dict(parts).items()))
+                 for name, parts in dict(m.topics).items()))
+  want_meta = [norm_sent(bl, tl) for bl, tl in sent_meta]
+  for m in got_meta:
+    REC.probe('metadata_decoded')
+    try:
+      g = norm_got(m)
+    except Exception as e:
+      REC.violation('C15', 'metadata_mismatch', 'decoded metadata has an unexpected shape: %r' % (e,))
+      continue
+    if g not in want_meta:
+      w = want_meta[0] if want_meta else None
+      REC.violation('C15', 'metadata_mismatch',
+                    'decoded metadata differs from what the broker encoded: topics decoded %r, encoded %r' % (
+                      sorted(g[1]), sorted(w[1]) if w else None),
+                    {'topics_lost': bool(w and set(w[1]) - set(g[1]))})
   # correlation ids unique per connection among unanswered requests is covered by C11's tag oracle;
   # here: each reply reached the call whose request carried its correlation id
   order_sent, order_done = [], []
